@@ -696,6 +696,8 @@ def _str(interp, args, kwargs, node, frame):
         return str(v)
     if isinstance(v, SStr):
         return v
+    if is_z3(v) and z3.is_int(v):
+        return SStr(z3.IntToStr(v))
     if isinstance(v, SEnumMember):
         return v.value if v.cls.str_enum else f"{v.cls.qualname}.{v.name}"
     if isinstance(v, SOpaque):
@@ -1252,8 +1254,21 @@ def _seq_extend(interp, recv, args, kwargs, node, frame):
 @method("dict", "get")
 def _dict_get(interp, recv, args, kwargs, node, frame):
     k = args[0]
-    if is_z3(k):
-        raise Unsupported("dict.get with symbolic key", node)
+    if isinstance(k, SStr) or is_z3(k):
+        # symbolic key over a concrete dict: if-then-else over the keys
+        default = args[1] if len(args) > 1 else None
+        out = default
+        for kk, vv in reversed(list(recv.items())):
+            if isinstance(k, SStr):
+                if not isinstance(kk, str):
+                    continue
+                cond = k.expr == z3.StringVal(kk)
+            else:
+                if isinstance(kk, str):
+                    continue
+                cond = k == to_z3(kk)
+            out = ite(interp, cond, vv, out)
+        return out
     return recv.get(k, args[1] if len(args) > 1 else None)
 
 
@@ -1363,3 +1378,7 @@ def seq_loop(interp, st, it, frame):
         frame.locals[k] = out
     if st.orelse:
         interp.exec_block(st.orelse, frame)
+
+
+LIB_CONSTANTS = globals().get("LIB_CONSTANTS", {})
+LIB_CONSTANTS.update({"numpy.inf": float("inf"), "numpy.nan": float("nan"), "numpy.pi": math.pi, "math.inf": float("inf"), "math.pi": math.pi})
